@@ -32,11 +32,20 @@ StatedForm(S) == (S \cap {"sim", "S", "d"} # {}) /\ (S \cap {"t1", "t2"} \in {{}
 RemoveStore(n) == /\ n \in DOMAIN stores /\ (KeepForm => StatedForm(DOMAIN stores \ {n}))
                   /\ stores' = [m \in DOMAIN stores \ {n} |-> stores[m]]
                   /\ UNCHANGED <<ver, nruns, lastRun, lastVer, ranLog>>
+\* pool.add_store(n): an empty store for a node (e.g. one that was removed before); it fills up as batches are consumed
+AddStore(n) == /\ n \in NodeSet \ DOMAIN stores /\ (KeepForm => StatedForm(DOMAIN stores \cup {n}))
+               \* only for pools that do not store parameters: with parameters loaded for a batch, a node of that
+               \* batch that is NOT held (an added, still empty store) makes the simulator re-run on a generator the
+               \* parameters did not advance - the situation of finding F29 (TLC refutes Transparent / PoolFresh
+               \* without this guard)
+               /\ {"t1", "t2"} \cap DOMAIN stores = {}
+               /\ stores' = [m \in DOMAIN stores \cup {n} |-> IF m = n THEN <<>> ELSE stores[m]]
+               /\ UNCHANGED <<ver, nruns, lastRun, lastVer, ranLog>>
 \* the user replaces a downstream node; a stored node that was replaced must be dropped from the pool
 Replace(n) == /\ n \in {"S", "d"} /\ n \notin DOMAIN stores /\ ver[n] < 1
               /\ (n = "S" => "d" \notin DOMAIN stores)
               /\ ver' = [ver EXCEPT ![n] = ver[n] + 1] /\ UNCHANGED <<stores, nruns, lastRun, lastVer, ranLog>>
-Next == (\E k \in 1..MaxBatches : Run(k)) \/ (\E n \in NodeSet : RemoveStore(n)) \/ (\E n \in {"S", "d"} : Replace(n))
+Next == (\E k \in 1..MaxBatches : Run(k)) \/ (\E n \in NodeSet : RemoveStore(n) \/ AddStore(n)) \/ (\E n \in {"S", "d"} : Replace(n))
 Spec == Init /\ [][Next]_vars
 
 \* (a) same results as the pool-free run
